@@ -282,6 +282,7 @@ int ABT_cond_timedwait(ABT_cond cond, ABT_mutex mutex,
 
     /* Unlock the mutex that the calling ULT is holding */
     ABTI_mutex_unlock(p_local, p_mutex);
+    ABTI_VERIF_POINT(ABTI_VERIF_P_COND_WAIT_AFTER_UNLOCK);
     ABT_bool is_timedout =
         ABTI_waitlist_wait_timedout_and_unlock(&p_local, &p_cond->waitlist,
                                                &p_cond->lock, tar_time,
